@@ -1666,3 +1666,7 @@ mod tests {
           //     assert_eq!(format!("{:?}", tx), "SyncSender { .. }");
           // }*/
 }
+
+#[cfg(kani)]
+#[path = "/verif/harness/may/sync_mpsc.rs"]
+mod verif_kani;
